@@ -546,6 +546,11 @@ def debug_metamorphic(ctx, n):
             continue
         va, vb = view_of_real(a[1]), view_of_real(b[1])
         ctx.case("debug-names:%r|%r" % (g, inp), nontrivial=len(va[1]) > 0, agreed=True)
+        if va[0] != vb[0]:
+            # the TOKENS differ: debug flags change what streamline() flattens (F-07b's mechanism, whitespace flags of an
+            # unflattened sequence) - not a statement about names; counted, not decided here
+            ctx.stat("debug_metamorphic_tokens_differ")
+            continue
         if va != vb:
             ctx.violation("debug-changes-names:%r|%r" % (g, inp),
                           "%r on %r: tokens / names / list-all names are %r, with quiet debug actions on every node %r" % (g, inp, va, vb),
